@@ -5,6 +5,7 @@ package sched
 import (
 	"bytes"
 	"context"
+	"encoding/binary"
 	"fmt"
 	"io"
 	"strings"
@@ -142,8 +143,44 @@ func glueCols() []inCol {
 	return out
 }
 
+// bigCols: input blocks of a few hundred KB (pseudo-random, so that no compression method
+// shrinks them below the size steps of buffers on the way out).
+func bigCols() []inCol {
+	const n = 40000
+	x := uint64(0x9e3779b97f4a7c15)
+	next := func() uint64 { x ^= x << 13; x ^= x >> 7; x ^= x << 17; return x }
+	u := make(proto.ColUInt64, n)
+	uv := make([]any, n)
+	for i := range u {
+		u[i] = next()
+		uv[i] = U64(u[i])
+	}
+	const ns = 3000
+	strs := make([]string, ns)
+	sv := make([]any, ns)
+	for i := range strs {
+		b := make([]byte, 64)
+		for j := 0; j < 64; j += 8 {
+			binary.LittleEndian.PutUint64(b[j:], next())
+		}
+		strs[i] = string(b)
+		sv[i] = b
+	}
+	return []inCol{
+		{"bigu", "UInt64", func() proto.ColInput { c := append(proto.ColUInt64{}, u...); return &c }, uv},
+		{"bigs", "String", func() proto.ColInput {
+			c := new(proto.ColStr)
+			for _, s := range strs {
+				c.Append(s)
+			}
+			return c
+		}, sv},
+	}
+}
+
 func init() {
 	inCols = append(inCols, glueCols()...)
+	inCols = append(inCols, bigCols()...)
 	q02Alph[10] = len(inCols) + 1
 }
 
@@ -419,7 +456,7 @@ func body02(k q02) Body {
 
 // C02 — everything the client writes for a query is a well-formed packet sequence.
 func C02(c *vk.Ctx) {
-	c.Rule("queries with <= 2 fields deviating from a base query over per-field alphabets (query id given / generated / 300 bytes; body short / empty / 70 KiB / non-UTF-8; 0..2 connection settings; 0..2 query settings incl. an override and an empty value; 0..2 parameters; secret; query quota key; connection quota key (addendum); initial user; external data none / default table / named table with 2 columns; input of 1..3 columns, sent as one block or streamed in two rounds through OnInput (Reset + refill of the same column objects), over 32 column types (integers to 256 bits, floats, Bool, UUID, IPv4/6, dates, DateTime64, Decimal, FixedString, name-based enums that must adopt the server's definition, JSON, Point, Nullable, LowCardinality, nested arrays, Array(LowCardinality), Map(String, Array), Tuple); OpenTelemetry span context) x {Disabled, None, LZ4, LZ4HC, ZSTD} at the newest revision, and queries with <= 1 deviation x every revision of the threshold-neighbour set from 54420 up x {Disabled, LZ4}. Each case is one execution of the real Connect + Do (default schedule); the recorded client bytes are compared with the reference encoding (Query packet byte for byte; blocks by reference decoding incl. frame checksum). distinct_nontrivial = cases.")
+	c.Rule("queries with <= 2 fields deviating from a base query over per-field alphabets (query id given / generated / 300 bytes; body short / empty / 70 KiB / non-UTF-8; 0..2 connection settings; 0..2 query settings incl. an override and an empty value; 0..2 parameters; secret; query quota key; connection quota key (addendum); initial user; external data none / default table / named table with 2 columns; input of 1..3 columns, sent as one block or streamed in two rounds through OnInput (Reset + refill of the same column objects), over 32 column types and two large pseudo-random blocks (40000 x UInt64 = 320 KB, 3000 x 64-byte strings) (integers to 256 bits, floats, Bool, UUID, IPv4/6, dates, DateTime64, Decimal, FixedString, name-based enums that must adopt the server's definition, JSON, Point, Nullable, LowCardinality, nested arrays, Array(LowCardinality), Map(String, Array), Tuple); OpenTelemetry span context) x {Disabled, None, LZ4, LZ4HC, ZSTD} at the newest revision, and queries with <= 1 deviation x every revision of the threshold-neighbour set from 54420 up x {Disabled, LZ4}. Each case is one execution of the real Connect + Do (default schedule); the recorded client bytes are compared with the reference encoding (Query packet byte for byte; blocks by reference decoding incl. frame checksum). distinct_nontrivial = cases.")
 	run := func(k q02, group string) {
 		id := k.id()
 		if !c.Next(id) {
@@ -445,6 +482,20 @@ func C02(c *vk.Ctx) {
 	rec = func(k q02, from, left int) {
 		if (k.f[12] != 0 || k.f[13] != 0) && k.f[10] == 0 {
 			return // second input column / streaming without a first input column
+		}
+		if k.f[10] > 0 && k.f[12] != 0 {
+			// the columns of one block must have the same number of rows: the large columns
+			// only go alone
+			n := len(inCols)
+			idx := []int{k.f[10] - 1, k.f[10] % n}
+			if k.f[12] == 2 {
+				idx = []int{k.f[10] - 1, (k.f[10] + 1) % n, (k.f[10] + 2) % n}
+			}
+			for _, i := range idx {
+				if len(inCols[i].vals) != 3 {
+					return
+				}
+			}
 		}
 		for _, comp := range comps {
 			kk := k
